@@ -274,6 +274,10 @@ def binop(I, op, a, b):
     if o is None:
         raise Unsupported(f"operator {op}")
     a, b = I.resolve(a), I.resolve(b)
+    from .values import VAny as _VAny
+    if isinstance(a, _VAny) or isinstance(b, _VAny):
+        x = a if isinstance(a, _VAny) else b
+        return I.any_child(x, o, b if x is a else a)
     # bytes
     if isinstance(a, VBytes):
         if o == "+" and isinstance(b, VBytes):
@@ -493,6 +497,9 @@ def compare(I, op, a, b) -> VBool:
             r = mkbool(not r.c) if r.c is not None else VBool(t=z3.Not(r.t))
         return r
     o = {ast.Lt: "<", ast.LtE: "<=", ast.Gt: ">", ast.GtE: ">="}[type(op)]
+    from .values import VAny as _VAny
+    if isinstance(a, _VAny) or isinstance(b, _VAny):
+        return _any_pred(I, o, a, b)
     if isinstance(a, VUnion) or isinstance(b, VUnion):
         aa = a.alts if isinstance(a, VUnion) else [(z3.BoolVal(True), a)]
         bb = b.alts if isinstance(b, VUnion) else [(z3.BoolVal(True), b)]
